@@ -1187,6 +1187,9 @@ func (c *ErrorConverter) To(obj Object) (interface{}, error) {
 }
 
 func (c *ErrorConverter) From(obj interface{}) (Object, error) {
+	if obj == nil {
+		return Nil, nil
+	}
 	return NewError(obj.(error)), nil
 }
 
